@@ -852,3 +852,124 @@ Proof.
     rewrite EM in HM. destruct HM as [_ [HM _]]. rewrite (HM r eq_refl). cbn. lia.
   - inversion E.
 Qed.
+
+(* ---------------------------------------------------------------------- *)
+(* histories: the only thing a call reads from the object's state, besides  *)
+(* the co-chaperone registered for its schema, are counters it never reads  *)
+
+Lemma fold_loop_state_indep : forall O C strats p st1 st2 atts,
+  match fold_loop O C strats p st1 atts, fold_loop O C strats p st2 atts with
+  | (r1, _, l1), (r2, _, l2) => r1 = r2 /\ l1 = l2
+  end.
+Proof.
+  induction strats as [|s rest IH]; intros p st1 st2 atts; cbn [fold_loop].
+  - auto.
+  - destruct (attempt_fold O C s p) as [[res|e] l].
+    + destruct (p_valid res).
+      * auto.
+      * specialize (IH p (inc_attempts st1 s) (inc_attempts st2 s) (atts ++ [(s, false, p_error res)])).
+        destruct (fold_loop O C rest p (inc_attempts st1 s) (atts ++ [(s, false, p_error res)])) as [[r1 s1] l1].
+        destruct (fold_loop O C rest p (inc_attempts st2 s) (atts ++ [(s, false, p_error res)])) as [[r2 s2] l2].
+        destruct IH as [-> ->]. auto.
+    + destruct (outer_catches e).
+      * specialize (IH p (inc_attempts st1 s) (inc_attempts st2 s) (atts ++ [(s, false, Some (ErrStr e))])).
+        destruct (fold_loop O C rest p (inc_attempts st1 s) (atts ++ [(s, false, Some (ErrStr e))])) as [[r1 s1] l1].
+        destruct (fold_loop O C rest p (inc_attempts st2 s) (atts ++ [(s, false, Some (ErrStr e))])) as [[r2 s2] l2].
+        destruct IH as [-> ->]. auto.
+      * auto.
+Qed.
+
+Lemma fold_loop_enhanced_state_indep : forall N O C strats p st1 st2 atts,
+  match fold_loop_enhanced N O C strats p st1 atts, fold_loop_enhanced N O C strats p st2 atts with
+  | (r1, _, l1), (r2, _, l2) => r1 = r2 /\ l1 = l2
+  end.
+Proof.
+  induction strats as [|s rest IH]; intros p st1 st2 atts; cbn [fold_loop_enhanced].
+  - auto.
+  - destruct (attempt_fold_enhanced N O C s p) as [[res|e] l].
+    + destruct (e_valid res).
+      * auto.
+      * specialize (IH p (inc_attempts st1 s) (inc_attempts st2 s) (atts ++ [(s, false, e_error res)])).
+        destruct (fold_loop_enhanced N O C rest p (inc_attempts st1 s) (atts ++ [(s, false, e_error res)])) as [[r1 s1] l1].
+        destruct (fold_loop_enhanced N O C rest p (inc_attempts st2 s) (atts ++ [(s, false, e_error res)])) as [[r2 s2] l2].
+        destruct IH as [-> ->]. auto.
+    + destruct (outer_catches e).
+      * specialize (IH p (inc_attempts st1 s) (inc_attempts st2 s) (atts ++ [(s, false, Some (ErrStr e))])).
+        destruct (fold_loop_enhanced N O C rest p (inc_attempts st1 s) (atts ++ [(s, false, Some (ErrStr e))])) as [[r1 s1] l1].
+        destruct (fold_loop_enhanced N O C rest p (inc_attempts st2 s) (atts ++ [(s, false, Some (ErrStr e))])) as [[r2 s2] l2].
+        destruct IH as [-> ->]. auto.
+      * auto.
+Qed.
+
+(* result and oracle calls of one fold do not depend on the counters it starts from *)
+Lemma fold_state_indep_proof : forall (N : num) (O : oracles) (C : config) ctor arg raw st1 st2,
+  (fst (fst (fold O C ctor arg raw st1)) = fst (fst (fold O C ctor arg raw st2)) /\
+   snd (fold O C ctor arg raw st1) = snd (fold O C ctor arg raw st2)) /\
+  (fst (fst (fold_enhanced N O C ctor arg raw st1)) = fst (fst (fold_enhanced N O C ctor arg raw st2)) /\
+   snd (fold_enhanced N O C ctor arg raw st1) = snd (fold_enhanced N O C ctor arg raw st2)).
+Proof.
+  intros N O C ctor arg raw st1 st2. split.
+  - unfold fold. destruct (preprocess O C raw) as [[p|e] l0]; [|cbn; auto].
+    pose proof (fold_loop_state_indep O C (effective ctor arg) p (inc_total st1) (inc_total st2) []) as H.
+    destruct (fold_loop O C (effective ctor arg) p (inc_total st1) []) as [[r1 s1] l1].
+    destruct (fold_loop O C (effective ctor arg) p (inc_total st2) []) as [[r2 s2] l2].
+    destruct H as [-> ->]. destruct r2 as [x|atts|e]; cbn; auto.
+    destruct (misfold O C (p_fail (ErrAllFailed (length (effective ctor arg)))) atts) as [x l3]. cbn. auto.
+  - unfold fold_enhanced. destruct (preprocess O C raw) as [[p|e] l0]; [|cbn; auto].
+    pose proof (fold_loop_enhanced_state_indep N O C (effective ctor arg) p (inc_total st1) (inc_total st2) []) as H.
+    destruct (fold_loop_enhanced N O C (effective ctor arg) p (inc_total st1) []) as [[r1 s1] l1].
+    destruct (fold_loop_enhanced N O C (effective ctor arg) p (inc_total st2) []) as [[r2 s2] l2].
+    destruct H as [-> ->]. destruct r2 as [x|atts|e]; cbn; auto.
+    destruct (misfold O C (mkE N false None (Some (ErrAllFailed (length (effective ctor arg)))) atts (lit_0_0 N) [] None) atts) as [x l3].
+    cbn. auto.
+Qed.
+
+Lemma hstep_reg : forall N B ctor s op, cs_reg (fst (hstep N B ctor s op)) = reg_step (cs_reg s) op.
+Proof.
+  intros N B ctor s op. destruct op as [raw sch arg|raw sch arg|sch co|]; cbn.
+  - destruct (fold _ _ ctor arg raw (cs_stats s)) as [[r st'] l]. reflexivity.
+  - destruct (fold_enhanced N _ _ ctor arg raw (cs_stats s)) as [[r st'] l]. reflexivity.
+  - reflexivity.
+  - reflexivity.
+Qed.
+
+Lemma hstep_out_indep : forall N B ctor s1 s2 op, cs_reg s1 = cs_reg s2 ->
+  snd (hstep N B ctor s1 op) = snd (hstep N B ctor s2 op).
+Proof.
+  intros N B ctor s1 s2 op Hreg. destruct op as [raw sch arg|raw sch arg|sch co|]; cbn; try reflexivity.
+  - rewrite Hreg.
+    destruct (fold_state_indep_proof N (oracles_for B sch (lookup_co (cs_reg s2) sch))
+                (config_for B (lookup_co (cs_reg s2) sch)) ctor arg raw (cs_stats s1) (cs_stats s2)) as [[H1 H2] _].
+    destruct (fold _ _ ctor arg raw (cs_stats s1)) as [[r1 st1] l1].
+    destruct (fold _ _ ctor arg raw (cs_stats s2)) as [[r2 st2] l2].
+    cbn in *. subst. reflexivity.
+  - rewrite Hreg.
+    destruct (fold_state_indep_proof N (oracles_for B sch (lookup_co (cs_reg s2) sch))
+                (config_for B (lookup_co (cs_reg s2) sch)) ctor arg raw (cs_stats s1) (cs_stats s2)) as [_ [H1 H2]].
+    destruct (fold_enhanced N _ _ ctor arg raw (cs_stats s1)) as [[r1 st1] l1].
+    destruct (fold_enhanced N _ _ ctor arg raw (cs_stats s2)) as [[r2 st2] l2].
+    cbn in *. subst. reflexivity.
+Qed.
+
+(* every call of a history returns what the same call returns on a fresh Chaperone *)
+Lemma history_independent_proof : forall (N : num) (B : base) ctor ops s,
+  run_hist N B ctor s ops = run_fresh N B ctor (cs_reg s) ops.
+Proof.
+  intros N B ctor. induction ops as [|op rest IH]; intros s; cbn [run_hist run_fresh].
+  - reflexivity.
+  - pose proof (hstep_reg N B ctor s op) as Hr.
+    pose proof (hstep_out_indep N B ctor s (mkCS stats0 (cs_reg s)) op eq_refl) as Ho.
+    destruct (hstep N B ctor s op) as [s' o]. cbn in *. rewrite Ho, IH, Hr. reflexivity.
+Qed.
+
+(* a call of a history IS a fold / fold_enhanced under the oracles of its schema, so
+   every per-call theorem applies to it *)
+Lemma hstep_is_fold_proof : forall (N : num) (B : base) ctor s raw sch arg,
+  let co := lookup_co (cs_reg s) sch in
+  let O := oracles_for B sch co in
+  let C := config_for B co in
+  hstep N B ctor s (HFold raw sch arg) =
+    (let '(r, st', l) := fold O C ctor arg raw (cs_stats s) in (mkCS st' (cs_reg s), OPlain r l)) /\
+  hstep N B ctor s (HFoldEnhanced raw sch arg) =
+    (let '(r, st', l) := fold_enhanced N O C ctor arg raw (cs_stats s) in (mkCS st' (cs_reg s), OEnh r l)).
+Proof. intros. split; reflexivity. Qed.
